@@ -192,6 +192,80 @@ def build_mutation(ck, layout, xb, B, op, src, obs=None):
     return {"eng": eng, "hyps": hyps, "goals": {g: z3.Implies(pc, f) for g, f in G.items()}, "reach": {"reach_end": pc}}
 
 
+def build_engine_ops(ck, layout, t, B, maxcount, fail, src, obs=None):
+    """the same kernel reached through the async engine API: DhtCoreEngine::select_query_peers with trust selection disabled
+    (= exactly the closest candidates in distance order), and handle_node_failure(x) followed by find_nodes (x is gone)"""
+    from harness import run_async
+
+    eng = ck.engine(unwind=260) if obs is None else ck.meta_engine()
+    eng.seq_cap = 24
+    keyb = key_with_target(src, t)
+    kbv = key_bv(keyb)
+    count = src.bv("count", 64)
+    table, nodes, lens = build_table(eng, src, layout, B)
+    which = src.bv("failed_slot", 8)
+    hyps = list(src.hyps) + table_hyps(nodes, lens, B) + [z3.ULE(count, bv(maxcount, 64)), z3.ULT(which, bv(max(1, len(nodes)), 8))]
+    # the failing peer is one of the peers of the first populated bucket (keeps its bucket index concrete)
+    first_bucket = nodes[0][0]
+    cand = [n for n in nodes if n[0] == first_bucket]
+    xbv = cand[-1][2]
+    xvalid = cand[-1][3]
+    for n in reversed(cand[:-1]):
+        xbv = z3.If(which == n[4], n[2], xbv)
+        xvalid = z3.If(which == n[4], n[3], xvalid)
+    hyps.append(z3.Or(*[which == n[4] for n in cand]))
+    if fail:
+        hyps.append(xvalid)
+    if obs is None:
+        st = State()
+        rt = eng.alloc(st, table)
+        adt = eng.struct_adt("DhtCoreEngine")
+        from values import VOpaque, VEnum
+        from summaries import OPTION
+        vals = []
+        for f, _ in adt.fields:
+            if f == "routing_table":
+                vals.append(rt)
+            elif f == "trust_peer_selector":
+                vals.append(VEnum(OPTION, bv(0, 8), {0: ()}))
+            elif f == "transport":
+                vals.append(VEnum(OPTION, bv(0, 8), {0: ()}))
+            elif f == "node_id":
+                vals.append(VStruct([VStruct([VArr([bv(0, 8)] * 32)], "DhtKey")], "NodeId"))
+            else:
+                vals.append(VOpaque("DhtCoreEngine." + f))
+        re_ = eng.alloc(st, VStruct(vals, "DhtCoreEngine"))
+        rk = eng.alloc(st, VStruct([keyb], "DhtKey"))
+        if fail:
+            xbytes = VArr([z3.simplify(z3.Extract(255 - 8 * i, 248 - 8 * i, xbv)) for i in range(32)])
+            st, _ = run_async(eng, ck.fn_in("DhtCoreEngine", "handle_node_failure"), [re_, VStruct([VStruct([xbytes], "DhtKey")], "NodeId")], st)
+            st2, out = run_async(eng, ck.fn_in("DhtCoreEngine", "find_nodes"), [re_, rk, count], st)
+            res = out.pay[0][0]
+            okk = out.idx == bv(0, 8)
+        else:
+            st2, res = run_async(eng, ck.fn_in("DhtCoreEngine", "select_query_peers"), [re_, rk, count], st)
+            okk = z3.BoolVal(True)
+        pc = z3.And(st2.pc, okk)
+        rl = res.len
+        idf = eng.struct_adt("core_engine::NodeInfo").field_index("id")
+        capf = eng.struct_adt("core_engine::NodeInfo").field_index("capacity")
+        rids = [key_bv(e.f[idf]) for e in res.elems]
+        rtags = [e.f[capf].f[0] for e in res.elems]
+    else:
+        pc = z3.BoolVal(True)
+        rl = bv(len(obs["result"]), 64)
+        rids = [bv(int.from_bytes(bytes(r["id"]), "big"), 256) for r in obs["result"]]
+        rtags = [bv(int(r["tag"]), 64) for r in obs["result"]]
+    live = [(n[0], n[1], n[2], z3.And(n[3], n[2] != xbv) if fail else n[3], n[4]) for n in nodes]
+    G = closest_goals(live, kbv, count, rl, rids, rtags)
+    if fail:
+        G = {"after_failure/" + g: f for g, f in G.items()}
+        G["after_failure/failed_peer_appears_in_no_answer"] = z3.And(*[z3.Implies(z3.ULT(bv(p, 64), rl), rids[p] != xbv) for p in range(len(rids))]) if rids else z3.BoolVal(True)
+    else:
+        G = {"trust_disabled/" + g: f for g, f in G.items()}
+    return {"eng": eng, "hyps": hyps, "goals": {g: z3.Implies(pc, f) for g, f in G.items()}, "reach": {"reach_nonempty": z3.And(pc, rl != 0)}}
+
+
 def sum_bool(conds):
     t = bv(0, 64)
     for c in conds:
@@ -240,6 +314,8 @@ def register(ck, tag, driver, params, builder):
 
 
 def builder_for(ck, driver, params):
+    if driver == "engine_ops":
+        return lambda s, obs: build_engine_ops(ck, params["layout"], params["t"], params["B"], params["maxcount"], params["fail"], s, obs)
     if driver == "closest":
         return lambda s, obs: build_closest(ck, params["layout"], params["t"], params["B"], params["maxcount"], s, obs)
     return lambda s, obs: build_mutation(ck, params["layout"], params["xb"], params["B"], params["op"], s, obs)
@@ -255,6 +331,10 @@ def run(tier):
         params = {"layout": layout, "xb": xb, "B": B, "op": op}
         tag = f"{op}[buckets={layout},x in {xb if xb is not None else 'local'}]"
         ck.guarded(tag, lambda params=params, tag=tag: register(ck, tag, "mutation", params, builder_for(ck, "mutation", params)))
+    for fail in (False, True):
+        params = {"layout": [3, 7], "t": 3, "B": 2, "maxcount": 2, "fail": fail}
+        tag = "engine[" + ("handle_node_failure+find_nodes" if fail else "select_query_peers, trust selection disabled") + "]"
+        ck.guarded(tag, lambda params=params, tag=tag: register(ck, tag, "engine_ops", params, builder_for(ck, "engine_ops", params)))
     ck.run_queries()
     import kanicheck
 
@@ -265,6 +345,7 @@ def run(tier):
                      + "; ".join(str(c) for c in closest_cases(tier)),
                      "add_node / remove_node of an arbitrary id in a concrete bucket (or the local id) on such tables: " + "; ".join(str(c) for c in mutation_cases(tier)),
                      "Kani: bucket index kernel for all id pairs (unwind 258)"]
+    ck.out.bounds.append("async engine API on one layout ([3,7], target 3, B=2, count<=2): DhtCoreEngine::select_query_peers with trust selection disabled; handle_node_failure(x) then find_nodes (also serves C16: a failed peer appears in no answer, and with trust selection disabled the choice is exactly the closest candidates)")
     ck.out.outside = ["the reply-merge half of the property (DhtNetworkManager::find_closest_nodes_local, handle_lookup_request, filter_response_nodes: async)",
                       "DhtCoreEngine::handle_request caps (MAX_FIND_NODE_COUNT, K) and the async join/add/evict call sites", "layouts, bucket fills and counts other than the listed ones (counts up to 64 in the property; here <= 8)",
                       "tables that are not well-formed (the add/remove obligations show well-formedness is preserved)"]
